@@ -72,12 +72,12 @@ func funcKey(f *ssa.Function) string {
 }
 
 type inliner struct {
-	cand    map[*ssa.Function]bool
-	touched map[*ssa.Function]bool
-	sites   map[*ssa.Function]int // inlined call sites per helper
-	skipped map[*ssa.Function]string
-	errs    []string
-	litArgs int // go/defer literals whose arguments were turned into captured variables
+	cand         map[*ssa.Function]bool
+	touched      map[*ssa.Function]bool
+	sites        map[*ssa.Function]int // inlined call sites per helper
+	skipped      map[*ssa.Function]string
+	errs         []string
+	litArgs      int // go/defer literals whose arguments were turned into captured variables
 	regionCopies int // calls through a function variable made direct by copying the code after a merge per way in
 }
 
@@ -2424,6 +2424,56 @@ func resolveFuncCell(addr ssa.Value, d int) *funcValue {
 			return nil
 		}
 		return resolveFuncValue(st.Val, d+1)
+	case *ssa.FieldAddr:
+		// a function kept in a field of a package-level table (`var addition = arithmetic{ints:
+		// func(x, y int64) int64 { return x + y }, ..}`), read directly or through a local
+		// copy of the table (a value receiver): the literal the package initialiser put there,
+		// when nothing else ever writes the table
+		var g *ssa.Global
+		switch base := a.X.(type) {
+		case *ssa.Global:
+			g = base
+		case *ssa.Alloc:
+			// the local copy is assigned once, as a whole, and only read afterwards
+			var st *ssa.Store
+			for _, r := range *base.Referrers() {
+				switch t := r.(type) {
+				case *ssa.Store:
+					if t.Addr != ssa.Value(base) || st != nil {
+						return nil
+					}
+					st = t
+				case *ssa.FieldAddr:
+					for _, r2 := range *t.Referrers() {
+						switch u := r2.(type) {
+						case *ssa.UnOp:
+							if u.Op != token.MUL {
+								return nil
+							}
+						case *ssa.DebugRef:
+						default:
+							return nil
+						}
+					}
+				case *ssa.UnOp, *ssa.DebugRef:
+				default:
+					return nil
+				}
+			}
+			if st == nil || st.Block() != base.Block() {
+				return nil
+			}
+			if ld, ok := st.Val.(*ssa.UnOp); ok && ld.Op == token.MUL {
+				g, _ = ld.X.(*ssa.Global)
+			}
+		}
+		if g == nil {
+			return nil
+		}
+		if fn := globalFuncField(g, a.Field); fn != nil {
+			return &funcValue{fn, nil, nil}
+		}
+		return nil
 	case *ssa.FreeVar:
 		lit := a.Parent()
 		mc := closureOfLit(lit)
@@ -2437,6 +2487,106 @@ func resolveFuncCell(addr ssa.Value, d int) *funcValue {
 		}
 	}
 	return nil
+}
+
+var globalFieldCache = map[*ssa.Global]map[int]*ssa.Function{}
+
+// globalFuncField: field `field` of the package-level struct variable g holds, for the whole
+// life of the program, one function literal without free variables: the package initialiser
+// stores it there, and no other instruction of the package writes g, one of its fields, or
+// takes its address.
+func globalFuncField(g *ssa.Global, field int) *ssa.Function {
+	if m, ok := globalFieldCache[g]; ok {
+		return m[field]
+	}
+	m := map[int]*ssa.Function{}
+	globalFieldCache[g] = m
+	if g.Pkg == nil {
+		return nil
+	}
+	bad := false
+	count := map[int]int{}
+	var visit func(f *ssa.Function)
+	visit = func(f *ssa.Function) {
+		for _, b := range f.Blocks {
+			for _, x := range b.Instrs {
+				for _, op := range x.Operands(nil) {
+					if *op != ssa.Value(g) {
+						continue
+					}
+					switch t := x.(type) {
+					case *ssa.UnOp:
+						if t.Op != token.MUL {
+							bad = true
+						}
+					case *ssa.FieldAddr:
+						for _, r := range *t.Referrers() {
+							switch u := r.(type) {
+							case *ssa.Store:
+								if u.Addr != ssa.Value(t) || f.Name() != "init" || f.Parent() != nil {
+									bad = true
+									continue
+								}
+								count[t.Field]++
+								if lit, isFn := u.Val.(*ssa.Function); isFn && len(lit.FreeVars) == 0 {
+									m[t.Field] = lit
+								} else if mc, isMc := u.Val.(*ssa.MakeClosure); isMc && len(mc.Bindings) == 0 {
+									if lit, isFn := mc.Fn.(*ssa.Function); isFn {
+										m[t.Field] = lit
+									}
+								} else {
+									m[t.Field] = nil
+								}
+							case *ssa.UnOp:
+								if u.Op != token.MUL {
+									bad = true
+								}
+							case *ssa.DebugRef:
+							default:
+								bad = true
+							}
+						}
+					case *ssa.DebugRef:
+					default:
+						bad = true // stored as a whole, address passed on, ...
+					}
+				}
+			}
+		}
+		for _, a := range f.AnonFuncs {
+			visit(a)
+		}
+	}
+	for _, mem := range g.Pkg.Members {
+		switch t := mem.(type) {
+		case *ssa.Function:
+			visit(t)
+		case *ssa.Type:
+			ms := g.Pkg.Prog.MethodSets.MethodSet(t.Type())
+			for i := 0; i < ms.Len(); i++ {
+				if fn := g.Pkg.Prog.MethodValue(ms.At(i)); fn != nil && fn.Pkg == g.Pkg {
+					visit(fn)
+				}
+			}
+			ms = g.Pkg.Prog.MethodSets.MethodSet(types.NewPointer(t.Type()))
+			for i := 0; i < ms.Len(); i++ {
+				if fn := g.Pkg.Prog.MethodValue(ms.At(i)); fn != nil && fn.Pkg == g.Pkg {
+					visit(fn)
+				}
+			}
+		}
+	}
+	for f, n := range count {
+		if n != 1 {
+			delete(m, f)
+		}
+	}
+	if bad {
+		for f := range m {
+			delete(m, f)
+		}
+	}
+	return m[field]
 }
 
 // importValue makes a value v of the enclosing function owner (a variable cell,
